@@ -515,8 +515,9 @@ def run_c06(run):
 
 def run_c07(run):
     extra = [("lead", "Lead_ElideUnpublished", 2, None, dict(timeout=600, heap="2g"))]
-    # Thor_2x2_reader: 28.3 M distinct / 97.9 M generated states, measured 19 min at 6 workers on a loaded machine
-    exh = QUICK_EXH["C07"] if run.tier == "quick" else list(dict([("Thor_2x2_reader", 8)] + QUICK_EXH["C07"] + THOR_EXH).items())
+    # Thor_2x2_reader.cfg (28.3 M distinct / 97.9 M generated states, passes; 19 min at 6 workers standalone) is NOT part of the
+    # registered thorough tier: together with the rest it exceeded 25 min on a shared machine.  Run it by hand.
+    exh = QUICK_EXH["C07"] if run.tier == "quick" else list(dict(QUICK_EXH["C07"] + THOR_EXH).items())
     if run.tier == "thorough":
         extra.append(("live", "Live_PP", 4, None, dict(timeout=2400, heap="8g")))
     other = design(run, exh, BUGS["C07"], extra)
